@@ -1066,27 +1066,45 @@ class _PointSource(object):
         self._s.close()
 
 
-THREAD_DOCS = [
-    ('utf-8', [['preamble', 'first\nfile é\n', None, 4, None, None],
-               ['meta', {'k': ['v', 1]}, None], ['change', None],
-               ['file', None], ['meta', {'path': 'a'}, None],
-               ['diff', b'--- a\n+++ b\n@@ -1 +1 @@\n-x\n+y\n', None, None,
-                None]]),
-    ('utf-16', [['preamble', 'second\r\nfile\r\n', None, 2, 'dos',
-                 'text/markdown'], ['change', 'latin-1'],
-                ['preamble', 'é\n', None, 0, None, None], ['file', None],
-                ['meta', {'path': 'b', 'z': None}, 'utf-32'],
-                ['diff', 'q\r\n'.encode('utf-32'), 'text', 'utf-32',
-                 None]]),
-    ('latin-1', [['change', None], ['file', None],
-                 ['meta', {'path': 'ç'}, None],
-                 ['diff', b'\x00\xff\n', 'binary', None, 'unix'],
-                 ['file', 'utf-8'], ['meta', {'path': 'd'}, None]]),
-]
+def _tdoc(root, le, crlf):
+    """One document per (main encoding, line endings, header newline): the
+    same calls everywhere, so that anything keyed by line_endings / section
+    kind / option names collides between two threads while the encodings
+    (and header newlines) differ."""
+    nl = '\r\n' if le == 'dos' else '\n'
+    t = lambda x: x.replace('\n', nl)
+    return (root, [
+        ['preamble', t('first\nfile é\n'), None, 4, le, None],
+        ['meta', {'k': ['v', 1]}, None], ['change', None],
+        ['preamble', t('c é\n'), None, 0, le, None],
+        ['file', None], ['meta', {'path': 'a', 'z': None}, None],
+        ['diff', t('--- a\n+++ b\n@@ -1 +1 @@\n-x\n+y\n').encode('ascii'),
+         None, None, le]], crlf)
+
+
+THREAD_DOCS = [_tdoc('utf-8', 'unix', False), _tdoc('utf-16', 'unix', False),
+               _tdoc('latin-1', 'dos', False), _tdoc('utf-32', 'dos', True),
+               _tdoc('utf-8', 'unix', True)]
+
+
+def _crlf_headers(data):
+    """The same file as another producer writes it: CRLF after headers."""
+    out = []
+    pos = 0
+    recs, err = spec.parse(data)
+    assert err is None
+    for r in recs:
+        j = data.index(b'\n', pos)
+        out.append(data[pos:j] + b'\r\n')
+        n = r['options'].get('length', 0) \
+            if r['section'] in spec.CONTENT_IDS else 0
+        out.append(data[j + 1:j + 1 + n])
+        pos = j + 1 + n
+    return b''.join(out)
 
 
 def _thread_roundtrip(doc):
-    root, calls = doc
+    root, calls, crlf = doc
 
     def body(ctl):
         _TCTL[_threading.get_ident()] = ctl
@@ -1097,7 +1115,9 @@ def _thread_roundtrip(doc):
             for c in calls:
                 apply_call(w, c)
             data = sink.getvalue()
-            recs = [rec_core(r) for r in DiffXReader(_PointSource(data))]
+            rdata = _crlf_headers(data) if crlf else data
+            recs = [rec_core(r, with_line=False)
+                    for r in DiffXReader(_PointSource(rdata))]
             return data, freeze(recs)
         finally:
             _TCTL.pop(_threading.get_ident(), None)
